@@ -260,7 +260,7 @@ EXTRACT_OWNERS = {
     "match_double_symbol_token": _LEX, "match_triple_symbol_token": _LEX,
     "grammar_terminals": {"C08", "C03"}, "postfix": {"C08", "C03"}, "range": {"C08", "C03"}, "tiers": {"C08", "C03"},
     "errors": {"C17", "C16"}, "peeled": {"C17"}, "renderer_format": {"C17"}, "typeFns": {"C16"},
-    "binop_arms": {"C16", "C06"}, "eq_arms": {"C16", "C10"}, "panic_sites": {"C02"}, "bind_rejects": {"C20"},
+    "binop_arms": {"C16", "C06"}, "eq_arms": {"C16", "C10"}, "panic_sites": {"C02"}, "bind_rejects": {"C20"}, "iterables": {"C07", "C16"},
 }
 
 
